@@ -254,6 +254,19 @@ def seedless_families():
         ("coupled_matrix_tensor_3d_factorization[init=svd]",
          lambda off: (lambda T=_t3(off), M=V.generic((3, 3), off + 9): D.coupled_matrix_tensor_3d_factorization(T, M, 2, init="svd", n_iter_max=2))),
     ])
+    def _mask3(off):
+        m = np.ones((3, 4, 2))
+        m[0, 1, 0] = m[2, 3, 1] = m[1, 0, 1] = 0.0
+        return m
+
+    # masked data with SVD initialisation, the SAME (C-contiguous) data array handed to every call of a history
+    fam("masked-svd-init-decompositions-E", 3.0, [
+        ("parafac[init=svd,mask]", lambda off: (lambda T=np.ascontiguousarray(_t3(off)), M=_mask3(off): D.parafac(T, 2, init="svd", mask=M, n_iter_max=2, tol=0))),
+        ("tucker[init=svd,mask]", lambda off: (lambda T=np.ascontiguousarray(_t3(off)), M=_mask3(off): D.tucker(T, [2, 2, 2], init="svd", mask=M, n_iter_max=2, tol=0))),
+        ("non_negative_parafac[init=svd,mask]", lambda off: (lambda T=np.ascontiguousarray(_t3(off, False)), M=_mask3(off): D.non_negative_parafac(T, 2, init="svd", mask=M, n_iter_max=2))),
+        ("svd_interface[mask]", lambda off: (lambda T=np.ascontiguousarray(V.generic((4, 3), off + 3)), M=np.array([[1, 1, 0], [1, 1, 1], [0, 1, 1], [1, 1, 1.0]]):
+                                              S.svd_interface(T, n_eigenvecs=2, mask=M, n_iter_mask_imputation=3))),
+    ])
     fam("svd-based-decompositions-C", 2.0, [
         ("tensor_train", lambda off: (lambda T=_t3(off): D.tensor_train(T, [1, 2, 2, 1]))),
         ("tensor_train_matrix", lambda off: (lambda T=V.generic((2, 3, 2, 3), off): D.tensor_train_matrix(T, [1, 2, 1]))),
